@@ -1014,7 +1014,9 @@ class C07(FloatSpec):
             'and floats, 0-d arrays; positional and keyword arguments; array queries in the same containers (law: array '
             'form = scalar form point by point), DataFrame form, get_spl alias; a twin object differing in one parameter; '
             'the same query repeated; gain changed after first use and set back; two tables of 1500-3000 rows with '
-            '4000-20000 query frequencies per run.')
+            '4000-20000 query frequencies per run. Targeted pass: vrms / fixed_gain / attenuation left out of the call when they '
+            'carry the documented default (1 Vrms, 0 dB); the table the object reports (frequency / sensitivity attributes); one '
+            'frequency array asked twice by the same method, overwritten in place in between (op reuse).')
 
     def gen(self, rng, tier):
         n = 700 if tier == 'quick' else 14000
